@@ -299,9 +299,13 @@ def build_rank(desc: dict[str, Any], rank: int) -> Any:
             if it.get("variant"):
                 from vf.vtags import VTag
                 node[it["id"]] = node[it["id"]].tagged(VTag(it["id"]))
+        elif it["kind"] == "dropped_recv":
+            node[it["id"]] = pt.make_placeholder(it["name"], tuple(it["shape"]), np.float64)
     for it in order:
         k = it["kind"]
-        if k in ("in", "dropped_recv"):
+        if k == "dropped_recv":
+            continue
+        if k in ("in",):
             node[it["id"]] = pt.make_placeholder(it["name"], tuple(it["shape"]), np.float64)
         elif k == "op":
             r = pt_op(it["op"], [node[a] if isinstance(a, int) else a for a in it["args"]])
